@@ -302,7 +302,7 @@ func (c *Chain) SpentBy(txid string, vout uint32) string {
 }
 
 // Key is the canonical description of the chain for state keys.
-func (c *Chain) Key(base uint32, label func(class, s string) string) string {
+func (c *Chain) Key(base uint32) string {
 	c.w.mu.Lock()
 	defer c.w.mu.Unlock()
 	var parts []string
@@ -315,7 +315,11 @@ func (c *Chain) Key(base uint32, label func(class, s string) string) string {
 		var sp []string
 		for i := range t.Msg.TxOut {
 			if s, ok := c.Spent[fmt.Sprintf("%s:%d", id, i)]; ok {
-				sp = append(sp, fmt.Sprintf("%d>%s", i, s[:6]))
+				kind := "?"
+				if st := c.Txs[s]; st != nil {
+					kind = fmt.Sprintf("%s/c%d", st.Kind, c.confsLocked(s))
+				}
+				sp = append(sp, fmt.Sprintf("%d>%s", i, kind))
 			}
 		}
 		parts = append(parts, fmt.Sprintf("%s/%s/c%d/%v", t.Kind, t.By, conf, sp))
